@@ -155,6 +155,18 @@ def _flows_to_wake(ctx, fn, start_local, start_bb):
                     tainted.add(dst)
                     changed = True
     sites = []
+    # `if let Some(w) = taken { w.wake() }`: the None edge of the test of the taken value owes nothing
+    for bb, b in enumerate(fn.blocks):
+        t = b['term']
+        if t and t['k'] == 'switch' and not b['cleanup']:
+            for s in b['stmts']:
+                if s['k'] == 'assign' and s['rv']['k'] == 'discr' and s['rv']['pl']['l'] in tainted and not s['rv']['pl']['p']:
+                    none = [tb for v, tb in t['targets'] if v == '0']
+                    if none:
+                        sites.append(none[0])
+                    elif not any(v == '0' for v, _ in t['targets']):
+                        sites.append(t['otherwise'])
+    has_wake = False
     g = cg(ctx)
     for s in g.sites.get(fn.name, []):
         t = s.t
@@ -164,9 +176,11 @@ def _flows_to_wake(ctx, fn, start_local, start_bb):
             for c in s.targets:
                 if any(x.kind == 'wake' for x in g.sites.get(c, [])):
                     sites.append(s.bb)
+                    has_wake = True
         if s.kind == 'wake' and t['args'] and t['args'][0]['k'] in ('move', 'copy') and t['args'][0]['pl']['l'] in tainted:
             sites.append(s.bb)
-    return sites
+            has_wake = True
+    return sites if has_wake else []
 
 
 def lw(ctx):
